@@ -116,6 +116,10 @@ def build_tree(r, decls, relpath, depth, counter, same_names=False):
     elif c < 0.24:
         # upper-case letters in file and directory names
         segs = ["Dir%d" % counter[0], "Mod%dX" % counter[0]] if r.random() < 0.5 else ["Mod%dX" % counter[0]]
+    elif c < 0.30:
+        # module and directory names that are words of the tool's own vocabulary: mod d3.fcp; is the file d3/fcp.fcp
+        w = r.choice(["fcp", "mod", "main", "version", "struct", "default", "init", "__init__", "lib"])
+        segs = ["d%d" % counter[0], w] if r.random() < 0.7 else [w + "%d" % counter[0], w]
     elif c < 0.45:
         segs = ["m%d" % counter[0]]
     elif c < 0.8:
